@@ -326,11 +326,15 @@ class TCPPacketGenerator(Device, OutMixIn):
 
         if self.dupack == 3:
             self.congestion_control.consecutive_dupacks_received()
-            self.resend_packet(ackno)
+            if ackno in self.sent_packets:
+                self.resend_packet(ackno)
             return
         elif self.dupack > 3:
             self.congestion_control.more_dupacks_received()
-            if self.last_ack + self.congestion_control.cwnd >= ackno:
+            if (
+                self.last_ack + self.congestion_control.cwnd >= ackno
+                and ackno in self.sent_packets
+            ):
                 self.resend_packet(ackno)
             return
 
@@ -354,10 +358,12 @@ class TCPPacketGenerator(Device, OutMixIn):
                 f"Congestion window size = {self.congestion_control.cwnd:.1f}, last ack = {ackno}."
             )
 
-            if ack.packet_id in self.timers:
-                self.timers[ack.packet_id].stop()
-                del self.timers[ack.packet_id]
-                del self.sent_packets[ack.packet_id]
+            # the acknowledgement is cumulative: every segment below ackno
+            # has been received, whichever segment triggered this ack
+            for seqno in [seq for seq in self.timers if seq < ackno]:
+                self.timers[seqno].stop()
+                del self.timers[seqno]
+                del self.sent_packets[seqno]
 
             self.cwnd_avaialbe.put(True)
 
